@@ -505,7 +505,7 @@ func c11RestartDiscipline(c *Ctx, m fsmSpec) {
 			}
 			all := true
 			for _, blk := range f.Blocks {
-				if _, isRet := blk.Instrs[len(blk.Instrs)-1].(*ssa.Return); isRet {
+				if _, isRet := blk.Instrs[len(blk.Instrs)-1].(*ssa.Return); isRet && blk != f.Recover {
 					if !(st.Block() == blk || st.Block().Dominates(blk)) {
 						all = false
 					}
@@ -541,7 +541,7 @@ func c11Options(c *Ctx, m fsmSpec) {
 	// result index -> values flowing into it
 	var ret *ssa.Return
 	for _, b := range f.Blocks {
-		if rt, ok := b.Instrs[len(b.Instrs)-1].(*ssa.Return); ok {
+		if rt, ok := b.Instrs[len(b.Instrs)-1].(*ssa.Return); ok && b != f.Recover {
 			ret = rt
 		}
 	}
